@@ -1,13 +1,55 @@
 #include "premain.h"
 
 #include <errno.h>
+#include <fcntl.h>
+#include <unistd.h>
 #include <stdlib.h>
 #include <string.h>
+
+#include <stdint.h>
 
 #include <string>
 
 #include "cctz/time_zone.h"
 #include "tzif.h"
+
+// A tuning knob of the C++ runtime that correctness must not depend on: the quality of std::hash.  libstdc++'s
+// hash of strings (and of every other byte range) is std::_Hash_bytes, an ordinary exported function, so the
+// definition below - in the executable - is the one the whole process uses.  Processes started with --weak-hash
+// get a hash with three values (everything collides; unordered containers still work, only slowly); all others
+// get 64-bit FNV-1a.  The choice is made once, at the first call, from the process's own command line, and never
+// changes afterwards (containers are laid out by it).
+namespace std {
+size_t _Hash_bytes(const void* ptr, size_t len, size_t seed) {
+  static const int weak = [] {
+    // (plain system calls: the first call may come from inside a run, where fopen is the simulated file system's)
+    char buf[8192];
+    size_t n = 0;
+    { int fd = open("/proc/self/cmdline", O_RDONLY); if (fd >= 0) { ssize_t r = read(fd, buf, sizeof buf - 1); if (r > 0) n = static_cast<size_t>(r); close(fd); } }
+    buf[n] = '\0';
+    const char* args[64];
+    int na = 0;
+    for (size_t i = 0; i < n && na < 64; i += strlen(buf + i) + 1) { args[na++] = buf + i; if (strcmp(buf + i, "--weak-hash") == 0) return 1; }
+    if (na >= 3 && strcmp(args[1], "replay") == 0) {   // a replay file says which hash its violation was found with
+      int fd = open(args[2], O_RDONLY);
+      if (fd >= 0) {
+        static char text[1 << 18];
+        size_t m = 0;
+        for (;;) { ssize_t r = read(fd, text + m, sizeof text - 1 - m); if (r <= 0) break; m += static_cast<size_t>(r); if (m >= sizeof text - 1) break; }
+        close(fd);
+        text[m] = '\0';
+        if (strstr(text, "\"weak_hash\":true") || strstr(text, "\"weak_hash\": true")) return 1;
+      }
+    }
+    return 0;
+  }();
+  const unsigned char* p = static_cast<const unsigned char*>(ptr);
+  if (weak) return (len + (len ? p[len - 1] : 0)) % 3;
+  uint64_t h = 1469598103934665603ULL ^ seed;
+  for (size_t i = 0; i < len; ++i) { h ^= p[i]; h *= 1099511628211ULL; }
+  return static_cast<size_t>(h);
+}
+}  // namespace std
 
 namespace sim {
 
